@@ -45,6 +45,8 @@ VARIANTS = {
     # name: (toolchain args, cargo args, rustflags, binary relpath)
     "rel": ([], ["build", "--release"], GUARD, "release/lzv"),
     "dbg": ([], ["build"], GUARD, "debug/lzv"),
+    # unoptimised (opt-level 0) debug build: what `cargo test` runs; recursion is not turned into loops
+    "dbg0": ([], ["build"], GUARD, "debug/lzv"),
     "asan": (
         ["+nightly"],
         ["build", "--release", "--target", "x86_64-unknown-linux-gnu"],
@@ -78,6 +80,8 @@ def build(p, variant):
     env = base_env()
     env["RUSTFLAGS"] = flags
     env["CARGO_TARGET_DIR"] = target
+    if variant == "dbg0":
+        env["CARGO_PROFILE_DEV_OPT_LEVEL"] = "0"
     cmd = ["cargo"] + tc + cargo_args + ["--offline", "--bin", "lzv"]
     t0 = time.time()
     r = subprocess.run(cmd, cwd=p.harness, env=env, stdout=subprocess.PIPE, stderr=subprocess.STDOUT, text=True)
@@ -318,7 +322,7 @@ def confirm_crash(p, prop, variant, tier, seed, idx, binary, extra_args=None, ti
 
 
 def describe_case(p, prop, variant, tier, seed, idx, binary, scale=None):
-    prefix, env, cwd = shard_cmd(p, binary, "rel" if variant in ("asan", "tsan", "vg", "dbg", "rel") else variant, seed)
+    prefix, env, cwd = shard_cmd(p, binary, "rel" if variant in ("asan", "tsan", "vg", "dbg", "dbg0", "rel") else variant, seed)
     if variant in ("asan", "tsan"):
         prefix, env, cwd = shard_cmd(p, binary, variant, seed)
     cmd = prefix + ["describe", prop, "--tier", tier, "--seed", str(seed), "--variant", variant, "--only", str(idx)]
@@ -542,6 +546,16 @@ def finish(p, v, cfg, scale=None):
 # Generic check: run the property's case stream under a list of variants
 # ------------------------------------------------------------------------------------------------
 
+def thorough_budget(variant, opts):
+    """Wall budget (seconds) after which a thorough shard starts no further case. VERIF_BUDGET_S overrides."""
+    env = os.environ.get("VERIF_BUDGET_S", "").strip()
+    if env.isdigit() and int(env) > 0:
+        return int(env)
+    if "budget" in opts:
+        return int(opts["budget"])
+    return 1500 if variant in ("miri", "vg", "asan") else 900
+
+
 def generic_check(p, prop, tier, seed, cfg):
     shutil.rmtree(os.path.join(p.replays, prop), ignore_errors=True)
     v = Verdict(prop, tier, seed, cfg["level"])
@@ -557,9 +571,15 @@ def generic_check(p, prop, tier, seed, cfg):
         nsh = opts.get("shards", NCPU)
         timeout = opts.get("timeout", 900 if tier == "quick" else 6 * 3600)
         scale = opts.get("scale")
+        extra_args = list(opts.get("args") or [])
+        if tier == "thorough":
+            b = thorough_budget(variant, opts)
+            extra_args += ["--budget-s", str(b)]
+            v.extra.setdefault("wall_budget_s_per_variant", {})[variant] = b
+            timeout = max(timeout, b + 3600)
         res = run_shards(p, prop, variant, tier, seed, nsh, binaries[variant], timeout=timeout, scale=scale,
                          env_extra=opts.get("env"), miri_extra=opts.get("miri_extra", ""),
-                         extra_args=opts.get("args"))
+                         extra_args=extra_args)
         handle_crashes(p, v, prop, variant, tier, seed, binaries[variant], res, scale, opts)
         v.add(variant, res)
     return finish(p, v, cfg)
